@@ -147,6 +147,9 @@ func (api *API) decodeBasedOnType(ctx context.Context, b []byte, value reflect.V
 			return api.decodeInterface(ctx, b, elemValue, elemType, ts, opts)
 		case reflect.Array:
 			return api.decodeArray(ctx, b, elemValue, ts, opts)
+		case reflect.Ptr:
+			// a pointer to a pointer: the inner pointer is decoded like any other value (it may have a custom codec)
+			return api.decode(ctx, b, elemValue, ts, opts)
 		default:
 			return api.decodeBasedOnType(ctx, b, elemValue, elemType, ts, opts)
 		}
